@@ -51,7 +51,8 @@ class Machine:
         """snap: snapshot dict (memN keys ignored); mems: [(begin, size)] in device order; cfg: full config dict"""
         self.s = {k: v for k, v in snap.items() if not k.startswith('mem')}
         self.mem = []
-        for i, (b, size) in enumerate(mems):
+        for i, m_ in enumerate(mems):
+            b, size = m_[0], m_[1]           # (a third element names the embedder's device class: no architectural meaning)
             self.mem.append((b, b + size, bytearray(snap.get('mem%d' % i, bytes(size)))))
         self.cfg = cfg
         self.hooked = hooked
